@@ -1,4 +1,5 @@
 import EaselModel.Ssi.Reader
+import EaselModel.Ssi.History
 /-! # C06 — property theorems (statements + glue only; lemmas live in Ssi/*.lean)
 
 `ns : NewSsi` is the model of the `ESL_NEWSSI` under construction, `ns.WF` says it is what the `esl_newssi_Add*`
@@ -49,7 +50,7 @@ theorem write_spec (ns : NewSsi) (h : ns.WF) (cur : Option Bytes) [Decidable ns.
     rintro ⟨ha, hb⟩
     rw [h.nsecondary] at ha
     obtain ⟨a, hmem⟩ := List.exists_mem_of_length_pos ha
-    have := (h.skey a hmem).2.2.1
+    have := (h.skey a hmem).2.2
     omega
   unfold NewSsi.write
   simp only [h1, ↓reduceIte, h.notWritten, Bool.false_eq_true, writeBytes_internal ns h]
@@ -165,5 +166,91 @@ theorem fileInfo_spec (ns : NewSsi) (h : ns.WF) (cur : Option Bytes) (bytes : By
     exact fileInfo_image fh hfh
   · simp only [hfh, ↓reduceDIte]
     exact fileInfo_bad fh (by omega)
+
+/-! ## internal sort = external sort, for every insertion history -/
+
+/-- The bytes of the index (and the status, duplicates included) are the same whether the keys were sorted in
+    memory or spilled to the tmp files, sorted bytewise as lines and re-parsed. -/
+theorem internal_eq_external (ns : NewSsi) (h : ns.WF) (hx : ns.ExtOK) : ns.toExternal.writeBytes = ns.writeBytes :=
+  writeBytes_toExternal ns h hx
+
+/-- For EVERY history of `AddFile/SetSubseq/AddKey/AddAlias` calls with arguments in range (`Op.Valid`: NUL-free
+    names, non-empty keys over bytes above TAB/newline, 64-bit numbers), with `max_ram` changed at any points of the
+    history (so the switch to the external sort happens anywhere, or never): `Write` returns the status and leaves the
+    file that `Write` returns for the in-memory logical content `logical ops`, and that content is well-formed —
+    so every theorem above applies to what the history wrote. -/
+theorem history_write (ops : List Op) (hv : ∀ op ∈ ops, op.Valid) (hf : (logical ops).files ≠ [])
+    (hn : ops.length < 2^40) (cur : Option Bytes) :
+    (logical ops).WF ∧ ((run ops).write cur).2 = ((logical ops).write cur).2 :=
+  run_write_eq_logical ops hv hf hn cur
+
+/-- end to end: after any valid history (external switch anywhere), `Write` succeeds iff the keys are distinct per
+    class; and on the bytes it wrote every stored primary key is found with its stored record and every string that
+    is neither a key nor an alias is `eslENOTFOUND`. -/
+theorem history_index_correct (ops : List Op) (hv : ∀ op ∈ ops, op.Valid) (hf : (logical ops).files ≠ [])
+    (hn : ops.length < 2^40) (cur : Option Bytes) :
+    (((run ops).write cur).2.1 = none ↔
+        ((logical ops).pkeys.map (·.key)).Nodup ∧ ((logical ops).skeys.map (·.key)).Nodup) ∧
+    (((run ops).write cur).2.1 ≠ none → ((run ops).write cur).2 = (some .edup, none)) ∧
+    (∀ bytes, ((run ops).write cur).2.2 = some bytes →
+      (∀ k ∈ (logical ops).pkeys,
+        (Ssi.open bytes.toArray).bind (·.findName k.key) = .ok ⟨k.fnum, k.roff, k.doff, k.len⟩) ∧
+      (∀ key, (∀ k ∈ (logical ops).pkeys, k.key ≠ key) → (∀ a ∈ (logical ops).skeys, a.key ≠ key) →
+        (Ssi.open bytes.toArray).bind (·.findName key) = .error .enotfound)) := by
+  obtain ⟨hwf, heq⟩ := run_write_eq_logical ops hv hf hn cur
+  have h1 : ((run ops).write cur).2.1 = ((logical ops).write cur).2.1 := by rw [heq]
+  have h2 : ((run ops).write cur).2.2 = ((logical ops).write cur).2.2 := by rw [heq]
+  refine ⟨?_, ?_, ?_⟩
+  · rw [h1]; exact write_ok_iff_distinct _ hwf cur
+  · intro hne
+    rw [h1] at hne
+    have hd : ¬ (((logical ops).pkeys.map (·.key)).Nodup ∧ ((logical ops).skeys.map (·.key)).Nodup) :=
+      fun hd => hne ((write_ok_iff_distinct _ hwf cur).mpr hd)
+    have := write_dup_no_file _ hwf cur hd
+    rw [heq]
+    exact Prod.ext this.1 this.2
+  · intro bytes hb
+    rw [h2] at hb
+    exact ⟨fun k hk => findName_stored _ hwf cur bytes hb k hk,
+           fun key hp hs => findName_absent _ hwf cur bytes hb key hp hs⟩
+
+/-! ## non-vacuity and the known finding -/
+
+/-- a concrete history: one file, keys `a`, `ab`, `b` (a prefix chain), alias `z → ab`, switch to the external sort
+    after the first key -/
+def exOps : List Op :=
+  [.addFile [100, 47, 102] 1, .addKey [97, 98] 0 (2^63 - 1) 4294967296 7, .setMaxRam 0, .addKey [97] 0 1 2 3,
+   .addKey [98] 0 4 5 6, .addAlias [122] [97, 98]]
+
+example : ∀ op ∈ exOps, op.Valid := by
+  intro op hop
+  simp only [exOps, List.mem_cons, List.not_mem_nil, or_false] at hop
+  rcases hop with rfl | rfl | rfl | rfl | rfl | rfl <;> simp [Op.Valid, KeyChars]
+
+example : (run exOps).external = true ∧ (logical exOps).external = false := by decide
+example : (logical exOps).files ≠ [] := by decide
+example : (logical exOps).pkeys.map (·.key) = [[97, 98], [97], [98]] := by decide
+
+/-- the index of the known finding: primary keys `k1`, `k2` and the alias `k2 → k1` -/
+def exCross : NewSsi :=
+  { files := [{ name := [102], fmt := 1, bpl := 0, rpl := 0 }], flen := 2,
+    pkeys := [⟨[107, 49], 0, 1, 2, 3⟩, ⟨[107, 50], 0, 4, 5, 6⟩], plen := 3, nprimary := 2,
+    skeys := [⟨[107, 50], [107, 49]⟩], slen := 3, nsecondary := 1 }
+
+theorem exCross_wf : exCross.WF := by
+  constructor <;> decide
+
+/-- KNOWN FINDING `C06:cross-class-duplicate` (counter-example to the full-strength statement "Write succeeds iff
+    ALL keys are distinct" and to `findName_alias` without its hypothesis `hnp`): an alias equal to a primary key is
+    accepted by `Write`, and looking it up returns the primary key's own record, not the alias target's. -/
+theorem cross_class_duplicate_accepted :
+    (∃ a ∈ exCross.skeys, ∃ k ∈ exCross.pkeys, a.key = k.key) ∧
+    (exCross.write (some [])).2.1 = none ∧
+    (∀ bytes, (exCross.write (some [])).2.2 = some bytes →
+      (Ssi.open bytes.toArray).bind (·.findName [107, 50]) = .ok ⟨0, 4, 5, 6⟩) := by
+  refine ⟨⟨⟨[107, 50], [107, 49]⟩, by decide, ⟨[107, 50], 0, 4, 5, 6⟩, by decide, rfl⟩, ?_, ?_⟩
+  · exact (write_ok_iff_distinct exCross exCross_wf _).mpr (by decide)
+  · intro bytes hb
+    exact findName_stored exCross exCross_wf _ bytes hb ⟨[107, 50], 0, 4, 5, 6⟩ (by decide)
 
 end EaselModel.Props.C06
